@@ -284,3 +284,30 @@ def t_formulas(t):
 
 
 KINDS.update({"formulas": t_formulas})
+
+
+# ---------------------------------------------------------------- C08: decisions and cost tables
+def t_improves_table(t):
+    rows = []
+    for c, others in t["rows"]:
+        try:
+            rows.append([c, others, 1 if impl.gasol_asm.improves_criterion(c, *others) else 0, None])
+        except Exception as ex:
+            rows.append([c, others, None, "%s: %s" % (type(ex).__name__, ex)])
+    return {"rows": rows}
+
+
+def t_cost_table(t):
+    """the tool's own per-item accounting for single-instruction blocks (diagnostic)"""
+    p = params_for(t["opts"])
+    rows = []
+    for text in t["items"]:
+        try:
+            b = impl.parse_block(text)[0]
+            rows.append([text, vocab.tokens_of_block(b), b.gas_spent, b.bytes_required, b.length, None])
+        except Exception as ex:
+            rows.append([text, None, None, None, None, "%s: %s" % (type(ex).__name__, ex)])
+    return {"rows": rows}
+
+
+KINDS.update({"improves_table": t_improves_table, "cost_table": t_cost_table})
